@@ -60,7 +60,7 @@ var basicTypes = map[string]types.Type{
 
 var builtinFns = map[string]bool{"len": true, "cap": true, "old": true, "region": true, "offset": true, "fresh": true, "allocated": true,
 	"rsize": true, "istype": true, "astype": true, "bytes": true, "same": true, "addr": true, "avail": true, "typeid": true, "strof": true,
-	"nilslice": true, "maplen": true, "bytesof": true, "isnil": true, "implements": true}
+	"nilslice": true, "maplen": true, "bytesof": true, "isnil": true, "implements": true, "snap": true, "eqbytes": true}
 
 func (en *Env) importPath(name string) string {
 	if name == "vs" {
@@ -744,6 +744,57 @@ func (en *Env) call(c ECall) TV {
 			}
 			n := en.toInt(en.eval(c.Args[1]))
 			return TV{V: VSlice{Reg: p.Reg, Off: p.Idx, Len: n, Cap: n}, T: types.NewSlice(byteType)}
+		case "eqbytes":
+			// eqbytes(a, alo, b, blo, n): a[alo+i] == b[blo+i] for 0 <= i < n, stated over absolute
+			// indices of a's backing array with a trigger on it (robust E-matching)
+			if len(c.Args) != 5 {
+				en.fail("eqbytes(a, alo, b, blo, n)")
+			}
+			arrOf := func(tv TV) (*Term, *Term) {
+				switch v := tv.V.(type) {
+				case VSlice:
+					return st.regionArrIn(en.heap, byteType, v.Reg), v.Off
+				case VString:
+					return v.Arr, v.Off
+				}
+				if tv.Untyped != nil {
+					s := en.defaultType(tv).V.(VString)
+					return s.Arr, s.Off
+				}
+				en.fail("eqbytes on %T", tv.V)
+				return nil, nil
+			}
+			aArr, aOff := arrOf(en.eval(c.Args[0]))
+			alo := en.toInt(en.eval(c.Args[1]))
+			bArr, bOff := arrOf(en.eval(c.Args[2]))
+			blo := en.toInt(en.eval(c.Args[3]))
+			n := en.toInt(en.eval(c.Args[4]))
+			aBase := e.ar.Bin(token.ADD, tInt, aOff, alo)
+			bBase := e.ar.Bin(token.ADD, tInt, bOff, blo)
+			if n.IsConst() && n.Val.IsInt64() && n.Val.Int64() <= 16 {
+				var cs []*Term
+				for i := int64(0); i < n.Val.Int64(); i++ {
+					ki := e.ar.IConst(i)
+					cs = append(cs, Eq(SelectD(aArr, e.ar.Bin(token.ADD, tInt, aBase, ki)), SelectD(bArr, e.ar.Bin(token.ADD, tInt, bBase, ki))))
+				}
+				return TV{V: VScalar{And(cs...)}, T: boolT}
+			}
+			e.nfresh++
+			j := Var(fmt.Sprintf("j!q%d", e.nfresh), e.ar.I())
+			in := And(e.ar.Cmp(token.LEQ, tInt, aBase, j), e.ar.Cmp(token.LSS, tInt, j, e.ar.Bin(token.ADD, tInt, aBase, n)))
+			sel := Select(aArr, j)
+			body := Implies(in, Eq(sel, Select(bArr, e.ar.Bin(token.ADD, tInt, bBase, e.ar.Bin(token.SUB, tInt, j, aBase)))))
+			return TV{V: VScalar{Forall([]*Term{j}, body, sel)}, T: boolT}
+		case "snap":
+			// snap(b): the content of a byte slice (in the heap of the evaluation context) as an immutable string value
+			a := en.eval(c.Args[0])
+			switch v := a.V.(type) {
+			case VSlice:
+				return TV{V: VString{Reg: v.Reg, Arr: st.regionArrIn(en.heap, byteType, v.Reg), Off: v.Off, Len: v.Len}, T: types.Typ[types.String]}
+			case VString:
+				return a
+			}
+			en.fail("snap of %T", a.V)
 		case "bytesof":
 			// bytesof(s): the bytes of a string as a slice-like value (content only)
 			a := en.defaultType(en.eval(c.Args[0]))
@@ -797,6 +848,10 @@ func (en *Env) specCall(fn *ssa.Function, args []Expr) TV {
 			}
 		}
 		vals[i] = tv.V
+	}
+	switch fn.String() {
+	case "math.Float64bits", "math.Float64frombits", "math.Float32bits", "math.Float32frombits":
+		return TV{V: vals[0], T: sig.Results().At(0).Type()}
 	}
 	var rt types.Type
 	if sig.Results().Len() == 1 {
